@@ -28,9 +28,14 @@ In   == Case.inp
 Ev   == Case.ev[e]
 M    == In.nm
 
-\* tolerance on the model's own outputs (units of 10^-6): labels exact; f64 2; f32 200
-Tol  == IF In.ot = "lab" THEN 0 ELSE IF In.ft = "f32" THEN 200 ELSE 2
-MTol == IF In.mot = "lab" THEN 0 ELSE 2
+\* tolerance on the model's own outputs, in code units, per row: labels exact; probabilities ("pr", always
+\* at 10^6) 2; unbounded floats of ordinary rows (10^6): f64 2, f32 200; of extreme rows (10^3): f64 2,
+\* f32 2000 (absolute error of an f32 linear form grows with the magnitude of the row)
+TolOf(ot, row) == IF ot = "lab" THEN 0
+                  ELSE IF ot = "pr" \/ In.ft # "f32" THEN 2
+                  ELSE IF Extreme(row) THEN 2000 ELSE 200
+Tol(row)  == TolOf(In.ot, row)
+MTol(row) == TolOf(In.mot, row)
 
 TraceInit ==
   /\ c \in 1..Len(Rec) /\ e = 1 /\ k = 0
